@@ -105,6 +105,18 @@ type Exec struct {
 	ipdom      map[*ssa.BasicBlock]*ssa.BasicBlock
 	ipdomDone  bool
 	retCover bool
+	atWild   map[string][]Clause // wildcard call-site assertions, expanded per site
+	// inlining of small helpers without a contract (call.go inlineCall)
+	rootFn      *ssa.Function    // the function under verification while a helper is being executed
+	rootParams  map[string]Value // its parameters (model values)
+	inlinePre   string           // prefix of obligation sites inside the helper
+	inlineDepth int
+	inlineCap   *[]inlineRet // where the helper's Return hands its state and results
+}
+
+type inlineRet struct {
+	s    *State
+	vals []Value
 }
 
 func (x *Exec) note(s string) { x.notes[s] = true }
@@ -348,17 +360,30 @@ func funcKey(f *ssa.Function) string {
 // ---------------------------------------------------------------------------
 
 func (x *Exec) ob(kind, site, desc string, in ssa.Instruction) *Oblig {
-	id := fmt.Sprintf("%s/%s", funcShort(x.fn), kind)
+	nameFn := x.fn
+	if x.rootFn != nil {
+		nameFn = x.rootFn
+		if site == "" {
+			site = strings.TrimSuffix(x.inlinePre, ":")
+		} else {
+			site = x.inlinePre + site
+		}
+	}
+	id := fmt.Sprintf("%s/%s", funcShort(nameFn), kind)
 	if site != "" {
 		id += "@" + site
 	}
-	o := &Oblig{ID: id, Func: funcShort(x.fn), Kind: kind, Desc: desc}
+	o := &Oblig{ID: id, Func: funcShort(nameFn), Kind: kind, Desc: desc}
 	if in != nil && in.Pos().IsValid() {
 		o.Pos = x.v.prog.Fset.Position(in.Pos()).String()
 	}
 	// model values: parameters' leaves
-	for _, n := range x.paramOrder() {
-		v := x.params[n]
+	mparams := x.params
+	if x.rootFn != nil {
+		mparams = x.rootParams
+	}
+	for _, n := range paramOrderOf(mparams) {
+		v := mparams[n]
 		ls := leavesOf(v.T)
 		ts := flatten(v)
 		for i, l := range ls {
@@ -379,9 +404,11 @@ func (x *Exec) ob(kind, site, desc string, in ssa.Instruction) *Oblig {
 	return o
 }
 
-func (x *Exec) paramOrder() []string {
+func (x *Exec) paramOrder() []string { return paramOrderOf(x.params) }
+
+func paramOrderOf(m map[string]Value) []string {
 	var ns []string
-	for n := range x.params {
+	for n := range m {
 		ns = append(ns, n)
 	}
 	sort.Strings(ns)
@@ -569,6 +596,15 @@ func (x *Exec) run(s *State, b *ssa.BasicBlock, pred *ssa.BasicBlock, stop *ssa.
 			case *ssa.Jump:
 				next = b.Succs[0]
 			case *ssa.Return:
+				if x.inlineCap != nil {
+					// the end of an inlined helper: the caller goes on from this state
+					var vals []Value
+					for _, r := range t.Results {
+						vals = append(vals, x.val(s, r))
+					}
+					*x.inlineCap = append(*x.inlineCap, inlineRet{s, vals})
+					return arrived
+				}
 				x.doReturn(s, t)
 				x.finish(s)
 				return arrived
@@ -1028,18 +1064,41 @@ func (x *Exec) doReturn(s *State, r *ssa.Return) {
 				// those locals exist (an early return before their definition says
 				// nothing about them); the registration check notices a clause
 				// that is never generated
-				t, ok := func() (t string, ok bool) {
-					defer func() {
-						if r := recover(); r != nil {
-							if e, isSpec := r.(specErr); isSpec && strings.HasPrefix(string(e), "unknown identifier") {
-								ok = false
-								return
+				// A local that does not exist (yet) at this return is UNCONSTRAINED,
+				// not a reason to skip the clause: "success implies <fact about a
+				// local>" must not be escaped by returning success before the local
+				// is defined. Only a name that is no variable of the function at all
+				// leaves the clause out (the registration check notices a clause that
+				// is never generated).
+				var t string
+				ok := false
+				for tries := 0; tries < 8 && !ok; tries++ {
+					missing := ""
+					t, ok = func() (t string, ok bool) {
+						defer func() {
+							if r := recover(); r != nil {
+								if e, isSpec := r.(specErr); isSpec && strings.HasPrefix(string(e), "unknown identifier") {
+									missing = strings.TrimSpace(strings.TrimPrefix(string(e), "unknown identifier"))
+									ok = false
+									return
+								}
+								panic(r)
 							}
-							panic(r)
-						}
+						}()
+						return env.checkTerm(c), true
 					}()
-					return env.checkTerm(c), true
-				}()
+					if ok || missing == "" {
+						break
+					}
+					name := strings.TrimSuffix(missing, "_local")
+					lt := x.localType(name)
+					if lt == nil {
+						break
+					}
+					fv := x.freshValue("unbound_"+name, lt)
+					s.assumeRanges(fv)
+					env.vars[missing] = fv
+				}
 				if !ok {
 					continue
 				}
@@ -1100,4 +1159,33 @@ func funcShort2(x *Exec) string {
 		return funcShort(x.fn)
 	}
 	return x.con.Name
+}
+
+// localType: the type of a local variable of the function under verification,
+// by name (the first definition in source order), or nil.
+func (x *Exec) localType(name string) types.Type {
+	if x.fn == nil || x.fn.Pkg == nil || x.fn.Syntax() == nil {
+		return nil
+	}
+	info := x.v.infos[x.fn.Pkg.Pkg.Path()]
+	if info == nil {
+		return nil
+	}
+	lo, hi := x.fn.Syntax().Pos(), x.fn.Syntax().End()
+	var best types.Object
+	for id, o := range info.Defs {
+		if o == nil || id.Name != name || id.Pos() < lo || id.Pos() > hi {
+			continue
+		}
+		if _, isVar := o.(*types.Var); !isVar {
+			continue
+		}
+		if best == nil || o.Pos() < best.Pos() {
+			best = o
+		}
+	}
+	if best == nil {
+		return nil
+	}
+	return best.Type()
 }
